@@ -72,7 +72,7 @@ def how_label(sc, rec):
         if f["kind"] == "cb":
             return f"callback-raised:{f['cb']}:{f['exc']}" + (":from-its-answer's-truth-value" if f.get("via") else "")
         if f["kind"] == "throw":
-            return f"thrown:{f['exc']}"
+            return f"thrown:{f['exc']}" + (":from-another-thread" if f.get("thread") else "")
         if f["kind"] == "hook":
             return f"hook-raised:{f['hook']}:{f['exc']}"
         if f["kind"] == "breaker":
@@ -219,6 +219,10 @@ def enumerate_faults(ctx, base, entry, rng, tier, stats):
         for sp in range(clean.suspensions):
             for k in THROW_KINDS:
                 plans.append({"kind": "throw", "at": sp, "exc": k, "call": 0})
+            # the same ending delivered from ANOTHER OS thread than the one that started (and was admitted with) the call: a loop in
+            # a worker thread shut down from the main thread, a coroutine closed by whoever drops it
+            for k in ("cancel", "close"):
+                plans.append({"kind": "throw", "at": sp, "exc": k, "call": 0, "thread": "other"})
     ctx.inc("injection_points_enumerated", len(plans))
     for f in plans:
         sc = dict(base, fault=f)
@@ -262,14 +266,85 @@ def work(ctx, tier):
                 sc["calls"][0]["outcomes"][0] = ["sp", sp, "TRANSIENT"] if sp == "nested_open" else ["sp", sp]
                 run_one(ctx, sc, entry, stats, manual=False)
                 ctx.inc("real_loop_runs")
+    if ctx.shard == 0:
+        seen_exception_objects(ctx)
     # calls that OVERLAP on one breaker (threads; a thread may be parked inside the breaker's critical section): once all have ended,
     # nobody holds the probe slot - the breaker recovers now and in the next outage
     tconc.thread_slice(ctx, tier, common.rng_for(ctx, "threads"), ["wedge", "probe"], budget=False, breaker=True, components=True, long_ops=True)
     common.flush_stats(ctx, stats)
 
 
+def seen_exception_objects(ctx):
+    """The probe ends with an exception OBJECT that the library has met before: the very instance whose earlier raise opened the circuit
+    (a client that caches its error), or an error that already passed through another policy with its own (healthy) breaker nested
+    inside the operation.  Black box: after the probe has ended and the recovery time has passed again, the next call is admitted."""
+    import asyncio
+
+    from redress import AsyncPolicy, AsyncRetry, Policy, Retry
+
+    def mk(is_async, with_retry, br):
+        R, P = (AsyncRetry, AsyncPolicy) if is_async else (Retry, Policy)
+        retry = R(classifier=lambda e: ErrorClass.TRANSIENT, strategy=lambda c: 0.0, max_attempts=2, deadline_s=1000.0) if with_retry else None
+        return P(retry=retry, circuit_breaker=br)
+
+    for is_async in (False, True):
+        for with_retry in (False, True):
+            for meth in ("call", "execute"):
+                for variant in ("stored-instance", "nested-policy"):
+                    world = env.World()
+                    world.manual = False  # async variants run on a real event loop
+                    with env.active(world):
+                        br = CircuitBreaker(failure_threshold=1, window_s=10.0, recovery_timeout_s=5.0, trip_on={ErrorClass.TRANSIENT, ErrorClass.UNKNOWN})
+                        pol = mk(is_async, with_retry, br)
+                        stored = ConnectionError("backend down")
+                        inner_br = CircuitBreaker(failure_threshold=50, window_s=10.0, recovery_timeout_s=5.0)
+                        inner = mk(is_async, False, inner_br)
+
+                        def fail():
+                            if variant == "stored-instance":
+                                raise stored
+                            raise ConnectionError("backend down")
+
+                        async def afail():
+                            fail()
+
+                        if variant == "nested-policy":
+                            op = (lambda: inner.call(afail)) if is_async else (lambda: inner.call(fail))
+                        else:
+                            op = afail if is_async else fail
+
+                        def once():
+                            try:
+                                r = getattr(pol, meth)(op)
+                                if is_async:
+                                    loop = asyncio.new_event_loop()
+                                    try:
+                                        r = loop.run_until_complete(r)
+                                    finally:
+                                        loop.close()
+                                return r
+                            except ConnectionError:
+                                return "raised"
+
+                        once()  # opens the circuit
+                        label = f"{'async' if is_async else 'sync'} Policy.{meth} {'with' if with_retry else 'without'} retry, {variant}"
+                        if CircuitBreaker.allow(br).allowed:
+                            ctx.inc("seen_exception:first_failure_did_not_open")
+                            continue
+                        world.t += 5.0 + 1.0 / 64
+                        once()  # the probe: fails with an exception object that has been reported before
+                        world.t += 5.0 + 100.0
+                        d = CircuitBreaker.allow(br)
+                        ctx.inc("probes_ending_with_an_exception_object_seen_before")
+                        ctx.inc("injected_runs")
+                        ctx.add("cells", "seen-exception|" + label)
+                        if not d.allowed:
+                            ctx.viol("probe-slot-leaked:exception-object-seen-before", f"[{label}] the probe failed with an exception object that had been reported before; recovery_timeout_s + 100 s later allow() still rejects (state {d.state.value}): breaker wedged", {"seen_exception": label})
+
+
 def conclude(ctx):
     floors = {
+        "probes_ending_with_an_exception_object_seen_before": (ctx.cnt["probes_ending_with_an_exception_object_seen_before"], 12),
         "probe_runs": (ctx.cnt["probe_runs"], 500),
         "second_outage_continuations": (ctx.cnt["second_outage_continuations"], 400),
         "settle:callback-raised": (ctx.cnt["settle:callback-raised"], 300),
@@ -306,6 +381,28 @@ def replay(data):
     p = data["payload"]
     if "tspec" in p:
         return tconc.replay(p)
+    if "seen_exception" in p:
+        class C:
+            bad = []
+
+            def inc(self, *a):
+                pass
+
+            def add(self, *a):
+                pass
+
+            def viol(self, k, m, pl):
+                if pl["seen_exception"] == p["seen_exception"]:
+                    self.bad.append(m)
+
+            cnt = {}
+
+        c = C()
+        seen_exception_objects(c)
+        for m in c.bad:
+            print("  !!", m)
+        print("replay:", "violation reproduced" if c.bad else "no violation on this tree")
+        return 1 if c.bad else 0
     sc, entry = p["scenario"], p["entry"]
     recs, h, world = rig.run(sc, entry)
     rec = recs[0]
